@@ -62,6 +62,8 @@ def main : IO Unit := do
     loop h out () Setters.driverStep ()
   | some (.list [.atom "model", .atom "parents"]) =>
     loop h out ({} : Parents.Heap) Parents.driverStep {}
+  | some (.list [.atom "model", .atom "cross"]) =>
+    loop h out ({} : Cross.OState) Cross.driverStep {}
   | some (.list [.atom "model", .atom "ext"]) =>
     loop h out ({} : Ext.DState) Ext.driverStep {}
   | _ => out.putStrLn "unknown-model"
